@@ -147,24 +147,31 @@ def run(repo: Repo, L: Ledger, tier: str):
 
     okm, whym = False, "FASTA output handle is not opened in binary mode"
     hv = norm(ctor[0].args[0]) if ctor and ctor[0].args else None
-    opens = [n for n in walk_shallow(wasm.node) if isinstance(n, ast.Assign) and hv is not None and norm(n.targets[0]) == hv and isinstance(n.value, ast.Call) and len(n.value.args) >= 3]
-    if opens:
-        wp = wasm.params()
-        env = {wp[3]: "FASTA", wp[2]: Opaque("output path"), wp[0]: Opaque("fai")}
-        seen_modes = []
-        for site in opens:
-            res = run_paths(wasm.node.body, env, loop_iters=(0,), stop_at=lambda nd, site=site: nd is site)
-            for r in res:
-                if r["stopped"] is None:
-                    continue
-                try:
-                    seen_modes.append(fold_env(site.value.args[2], r["env"]))
-                except NotConstant:
-                    seen_modes.append(None)
-        if not seen_modes:
-            raise AnalysisError(f"{wasm.short}: the output handle is not opened on any path with format FASTA")
-        okm = all(isinstance(m, str) and "b" in m for m in seen_modes)
-        whym = f"with output format FASTA the handle streamed into is opened with mode suffix {seen_modes} (no 'b'): the byte stream is written to a text handle"
+    if hv is None:
+        raise AnalysisError(f"{wasm.short}: FastaStream(<handle>, ...) construction not found")
+    wp = wasm.params()
+    env = {wp[3]: "FASTA", wp[2]: Opaque("output path"), wp[0]: Opaque("fai")}
+    ctor_stmt = ctor[0]
+    while not isinstance(ctor_stmt, ast.stmt):
+        ctor_stmt = ctor_stmt._parent
+    res = [r for r in run_paths(wasm.node.body, env, loop_iters=(0,), stop_at=lambda nd: nd is ctor_stmt) if r["stopped"] is not None]
+    if not res:
+        raise AnalysisError(f"{wasm.short}: the FASTA stream is not constructed on any path with format FASTA")
+    seen_modes = []
+    for r in res:
+        hval = r["env"].get(hv)
+        txt = getattr(hval, "text", None)
+        if not isinstance(hval, Opaque) or "(" not in txt:
+            raise AnalysisError(f"{wasm.short}: how the handle '{hv}' streamed into is opened is not understood ({hval!r})")
+        args_ = txt[txt.index("(") + 1: txt.rindex(")")].split(", ")
+        if len(args_) >= 3:
+            seen_modes.append(args_[2])
+        elif txt.startswith("get_output_filehandle("):
+            seen_modes.append("''")  # the opener's default mode (text)
+        else:
+            raise AnalysisError(f"{wasm.short}: handle '{hv}' is opened by '{txt[:60]}': mode argument not understood")
+    okm = all(m.startswith(("'", '"')) and "b" in m for m in seen_modes)
+    whym = f"with output format FASTA the handle streamed into is opened with mode suffix {seen_modes} (no 'b'): the byte stream is written to a text handle"
     L.check(okm, "R5", wasm.short + ":binary", "FASTA handle opened in binary mode", whym, wasm.loc())
 
     # ---- R6
